@@ -184,34 +184,47 @@ fn c06_o2_metric_distance_to_user__witness() {
 // -------------------------------------------------------------------------------------------
 // C17 O17.2: PackedLevel0 unchecked accessors stay inside `data` for arbitrary record words
 // -------------------------------------------------------------------------------------------
-const PW: usize = 48; // 3 nodes x 16 words (cap<=3, dim<=3 => record_words == 16)
+const RW: usize = 16; // cap<=3, dim<=3 => record_words == 16
 
+/// A two-node PackedLevel0 whose 32 data words are all arbitrary (neighbour counts, neighbour ids and
+/// vector bits are free).  The struct is built field by field with the layout `PackedLevel0::new`
+/// computes for these parameters (checked against the real constructor), so no allocation loop is
+/// unrolled; `push_node` has its own harness below.
 fn packed_setup() -> PackedLevel0 {
     let cap: usize = kani::any();
     let dim: usize = kani::any();
-    let n: usize = kani::any();
-    kani::assume(cap >= 1 && cap <= 3 && dim >= 1 && dim <= 3 && n >= 1 && n <= 3);
-    let mut p = PackedLevel0::new(cap, dim);
-    let emb = [0.25f32; 3];
-    let mut i = 0;
-    while i < n {
-        let id = p.push_node(&emb[..dim]);
-        assert!(id as usize == i, "C17: push_node returns the dense id");
-        assert!(p.data.len() == p.len() * p.record_words, "C17: data.len() == len()*record_words after push_node");
-        i += 1;
+    kani::assume(cap >= 1 && cap <= 3 && dim >= 1 && dim <= 3);
+    let shape = PackedLevel0::new(cap, dim);
+    assert!(shape.record_words == RW && shape.vector_offset_words == 1 + cap && shape.cap == cap && shape.dimension == dim);
+    let words: [u32; 2 * RW] = kani::any();
+    PackedLevel0 { cap, dimension: dim, record_words: RW, vector_offset_words: 1 + cap, data: words.to_vec() }
+}
+
+fn push_node_body(witness: bool) {
+    let mut p = PackedLevel0::new(2, 3);
+    let e: [f32; 3] = kani::any();
+    let id0 = p.push_node(&e);
+    let id1 = p.push_node(&e);
+    if witness {
+        kani::cover!(id1 == 1 && p.len() == 2, "two nodes pushed");
+        return;
     }
-    // arbitrary record words (neighbour counts, neighbour ids and vector bits are all free)
-    let words: [u32; PW] = kani::any();
-    let total = p.data.len();
-    assert!(total <= PW);
-    let mut w = 0;
-    while w < PW {
-        if w < total {
-            p.data[w] = words[w];
-        }
-        w += 1;
-    }
-    p
+    assert!(id0 == 0 && id1 == 1, "C17: push_node returns consecutive dense ids");
+    assert!(p.data.len() == p.len() * p.record_words && p.len() == 2, "C17: data.len() == len()*record_words after push_node");
+    assert!(p.count(1) == Some(0) && p.neighbors(1).is_empty(), "C17: a fresh node has no neighbours");
+    let v = p.vector_at(1);
+    assert!(v.len() == 3 && v[0].to_bits() == e[0].to_bits() && v[2].to_bits() == e[2].to_bits(), "C17: stored vector bits");
+}
+
+#[kani::proof]
+#[kani::unwind(20)]
+fn c17_o2_packed_level0_push_node() {
+    push_node_body(false);
+}
+#[kani::proof]
+#[kani::unwind(20)]
+fn c17_o2_packed_level0_push_node__witness() {
+    push_node_body(true);
 }
 
 fn packed_body(witness: bool) {
@@ -221,7 +234,7 @@ fn packed_body(witness: bool) {
     unsafe {
         let c = p.count_unchecked(d);
         if witness {
-            kani::cover!(c == p.cap && d == 2, "full neighbour list on the last node");
+            kani::cover!(c == p.cap && d == 1, "full neighbour list on the last node");
             kani::cover!(c == 0, "empty neighbour list");
             return;
         }
@@ -250,12 +263,12 @@ fn packed_body(witness: bool) {
 }
 
 #[kani::proof]
-#[kani::unwind(50)]
+#[kani::unwind(8)]
 fn c17_o2_packed_level0_unchecked() {
     packed_body(false);
 }
 #[kani::proof]
-#[kani::unwind(50)]
+#[kani::unwind(8)]
 fn c17_o2_packed_level0_unchecked__witness() {
     packed_body(true);
 }
@@ -289,12 +302,12 @@ fn packed_set_neighbors_body(witness: bool) {
 }
 
 #[kani::proof]
-#[kani::unwind(50)]
+#[kani::unwind(8)]
 fn c17_o2_packed_level0_set_neighbors() {
     packed_set_neighbors_body(false);
 }
 #[kani::proof]
-#[kani::unwind(50)]
+#[kani::unwind(8)]
 fn c17_o2_packed_level0_set_neighbors__witness() {
     packed_set_neighbors_body(true);
 }
